@@ -225,7 +225,7 @@ def gen_program(case_seed, force=None):
         dress = None
         if route in ('global', 'closure', 'attr', 'inner_partial', 'callobj', 'param_partial') and 'taints' not in force \
                 and rnd.random() < 0.12:
-            dress = rnd.choice(('lru_cache', 'wraps'))
+            dress = rnd.choice(('lru_cache', 'wraps', 'partial-route' if route in ('global', 'closure') else 'wraps'))
         via_local = ncalls >= 2 and 'taints' not in force and route in ('global', 'closure', 'attr', 'selfmethod', 'callobj', 'clsmethod') \
             and rnd.random() < 0.1
         # one of several forwarding calls only BUILDS a partial object (functools.partial(callee, *args, **kwargs)),
@@ -286,6 +286,8 @@ def render(meta):
             body.append('loc%d_ = %s' % (ci, cname))
             cname = 'loc%d_' % ci
         fa = list(c['lead'])
+        if c.get('dress') == 'partial-route':
+            fa.insert(0, 'callee%d_real' % ci)
         if c['star'] == 'own':
             fa.append('*' + ova)
         elif c['star'] == 'other':
@@ -450,6 +452,11 @@ def assemble(route, po, calls, body, decorate=False, modifier=None):
             defs += 'callee%d = functools.lru_cache(maxsize=None)(callee%d)\n' % (i, i)
         elif c.get('dress') == 'wraps':
             defs += 'callee%d = wrapping(callee%d)\n' % (i, i)
+        elif c.get('dress') == 'partial-route':
+            # the callee is a functools.partial OBJECT that binds one positional of a routing function; the call hands the
+            # real target over as the next positional: route_(audit_, target, ...) calls target(...)
+            defs += ('def route_(pre_, fn_, *a_, **k_): return fn_(*a_, **k_)\ndef audit_(tag_="x", *, level_=0): return None\n'
+                     'callee%d_real = callee%d\ncallee%d = functools.partial(route_, audit_)\n' % (i, i, i))
     n = len(calls)
     if route == 'global' or route == 'inner_partial':
         src += defs + deco + 'def outer(%s):\n%s\ntarget = outer\nraw_outer = outer\n' % (ostr, ind(body))
@@ -631,7 +638,7 @@ def expected_for(meta, g, osig, combo):
             return [('callee-retrieval-raises', e)]
         try:
             sigs_.append(signatures.forwards(
-                osig, isig, c['n'], *c['names'], use_varargs=use_va, use_varkwargs=use_kw,
+                osig, isig, c['n'] + (1 if c.get('dress') == 'partial-route' else 0), *c['names'], use_varargs=use_va, use_varkwargs=use_kw,
                 hide_args=hide_a, hide_kwargs=hide_k, partial=(route == 'inner_partial' or bool(c.get('as_partial')))))
         except ValueError:
             return [('forwards-raises', 'plain')]
@@ -916,6 +923,8 @@ def requery_after_rebinding(ctx, meta, g, want, w, rp):
     c0 = meta['calls'][0]
     if c0['star'] != 'own' and c0['dstar'] != 'own':
         return      # a call that forwards nothing has to succeed by itself: it was written for the old callee
+    if c0.get('dress') == 'partial-route' or c0.get('as_partial') or c0.get('via_local'):
+        return      # (the call was written for the routing partial object / builds a partial / goes through a local)
     alt = g['alt_callee']
     if meta['route'] == 'attr':
         g['ns'].sub.fn0 = alt
@@ -969,11 +978,25 @@ def classify_nonname(ctx, meta, g, S, plain):
     return None
 
 
+def signatures_plain(obj):
+    from sigtools import signatures
+    return signatures.signature(obj)
+
+
 def execute_soundness(ctx, meta, g, S, w, rp):
     """Really call the wrapper on every accepted non-colliding shape."""
     if meta['route'] == 'inner_partial':
         ctx.count('C05.not_executed_builds_partial_only')
         return
+    if any(c.get('dress') == 'partial-route' for c in meta['calls']):
+        # the callee is a partial object over a routing function that hands everything on to a callable it receives
+        # as an argument: whatever discovery reports for it stops at the router's own (*a, **k) -- what the final
+        # target accepts is beyond any signature of the wrapper (judged against the declaration by C06 only)
+        anon = lambda sig_: [((q[0] if q[1] not in (VA, VK) else '*'),) + tuple(q[1:]) for q in bparams(sig_)]
+        if len(meta['calls']) > 1 or anon(S) == anon(signatures_plain(g['target'])):
+            ctx.count('C05.not_executed_callee_routes_on')
+            return
+        # (a single routed call whose discovered signature says MORE than the plain one, star names aside, is executed)
     if any(t['cls'] != 'harmless' for t in meta['taints']) or any(c.get('incall_kw') for c in meta['calls']):
         ctx.count('C05.not_executed_tainted')
         return
